@@ -46,6 +46,7 @@ func tsaVariants() []tsaVariant {
 			p.certs[0].spec.NotAfter = baseTime.Add(-24 * time.Hour)
 		}, true),
 		mk("ca-pathlen-too-small", func(p *chainPlan) { p.certs[2].spec.MaxPathLen = 0 }, true),
+		mk("leaf-empty-subject", func(p *chainPlan) { p.certs[0].spec.EmptySubject = true }, true),
 	}
 }
 
@@ -259,6 +260,15 @@ func genC15(tier string, rng *RNG, w *CaseWriter) {
 				r.Expiry = time.Time{}
 				r.Labels = append(r.Labels, "signing-time-backdated-36h")
 				emitC15(w, r, &tvs[i], "granted", nil, "backdated:"+tvName)
+			}
+		}
+		// result vectors over a TSA chain whose leaf has an empty subject DN (its identity is in a critical subjectAltName)
+		for i := range tvs {
+			if tvs[i].name != "leaf-empty-subject" {
+				continue
+			}
+			for _, vec := range [][]int{{0, 1, 1}, {1, 1, 1}, {3, 1, 1}, {0, 0, 2}, {2, 1, 0}, {1, 0, 1}} {
+				emitC15(w, mkReq(fi, "ec256b", "notary.x509"), &tvs[i], "granted", &fakeValidator{results: vec}, "validator:empty-subject-leaf")
 			}
 		}
 		// an invalid request with a timestamper: the authority must not decide anything
